@@ -501,6 +501,11 @@ impl Case {
                         let abi = abi_name(&self.prefix, &t.name, &m.name);
                         // every other method spells its own type `Self`
                         let self_as = if mi % 2 == 1 || m.name.starts_with("vos") { Some(t.name.as_str()) } else { None };
+                        // a condition that is false for the backends driven here (C, C++): the method stays bound and
+                        // must stay exported
+                        if mi % 3 == 2 {
+                            s += "        #[diplomat::attr(not(any(c, cpp)), disable)]\n";
+                        }
                         s += &rust_method(&env, &abi, m, &self.scripts[&(t.name.clone(), m.name.clone())], bridge_only, self_as);
                     }
                 }
